@@ -71,9 +71,13 @@ def tasks(tier, seed):
         for P in (1, 2):
             for k in (1, 2, 3):
                 add("expected", 3, [], "expected-greedy", rnd.choice(["exploitability", "l1_norm"]), m=m, P=P, k=k)
+    # seven players (119 explorable coalitions: more than one machine word of action indices)
+    if tier == "thorough":
+        add("solver", 7, [], "largest", "l1_norm")
     # four players, three reveals, non-default gap functions (the candidates' ranking changes from round to round there)
     add("expected", 4, [], "expected-greedy", "linf_norm", m=1, P=1, k=3)
     add("expected", 4, [], "expected-greedy", "l1_norm", m=1, P=1, k=3)
+    add("expected", 4, [], "expected-greedy", "l2_norm", m=1, P=1, k=3)
     if tier == "thorough":
         add("expected", 4, [], "expected-greedy", "exploitability", m=1, P=2, k=2)
         add("expected", 4, [], "expected-greedy", "linf_norm", m=2, P=2, k=3)
@@ -259,6 +263,12 @@ CANARY_TASKS = 4
 # concolic pre-pass (engine.run guides): the paths taken by the test vectors are explored first, the systematic pass follows
 GUIDED = True
 GUIDED_N = 10
+FALLBACK_ON_UNDECIDED = True
+FALLBACK_VECTORS = 10        # tasks the solver leaves undecided (l2 rankings) are at least tried on all generic test games
+
+
+def guided_for(params):
+    return params["kind"] == "expected" and params["n"] >= 4
 
 
 def test_vectors(params):
